@@ -67,7 +67,12 @@ func acquireRealZstdWriter(w io.Writer, level int) *zstd.Encoder {
 	p := realZstdWriterPoolMap[nLevel]
 	v := p.Get()
 	if v == nil {
-		zw, err := zstd.NewWriter(w, zstd.WithEncoderLevel(zstd.EncoderLevel(nLevel)))
+		// The encoder must be synchronous: by default it hands finished blocks
+		// to w from its own goroutines after Write has returned, while the
+		// stackless writer reads and resets the buffer behind w between calls.
+		zw, err := zstd.NewWriter(w,
+			zstd.WithEncoderLevel(zstd.EncoderLevel(nLevel)),
+			zstd.WithEncoderConcurrency(1))
 		if err != nil {
 			panic(err)
 		}
